@@ -66,11 +66,13 @@ Overlaps(ep) == ep \in LongLived
 
 (* The dimensions of a shape that are CONFIGURATION of the instance (fixed when it is built); every      *)
 (* other dimension is input of a call.                                                                   *)
-(*   execservice    source (where the configuration URL points);  doc / prior / addr / pk are per call:   *)
+(*   execservice    source (where the configuration URL points), strat (the builder-bid strategy main.go   *)
+(*                  wired behind the service);  doc / prior / addr / pk / bid.. are per call:              *)
 (*                  what the source holds when the periodic fetch runs (prior = a good document of that   *)
 (*                  version is fetched first; for the FIRST call prior none = found by New)               *)
 (*   graffiti       fallback, loc, use (who consumes the provider); the file content is per call          *)
-(*   builderbid     strat; relay address, relay key, relay answer, second relay are per call (they come   *)
+(*   builderbid     strat; relay address, relay key, relay answers (the poll sequence), second relay are   *)
+(*                  per call (they come                                                                    *)
 (*                  with the proposer configuration of every auction)                                      *)
 (*   proposalbest   strat, n, clen (the strategy, the nodes and what they are called) and, per node,       *)
 (*                  whether the provider implements the optional NodeClientProvider interface               *)
@@ -78,12 +80,13 @@ Overlaps(ep) == ep \in LongLived
 (*                  implements the optional interface                                                       *)
 (*   aggregator     account (the accounts provider);  submitclassify  server (the node's software)        *)
 InstDims(ep) ==
-    CASE ep = "execservice" -> {"source"}
+    CASE ep = "execservice" -> {"source", "strat"}
       [] ep = "graffiti" -> {"fallback", "loc", "use"}
       [] ep = "builderbid" -> {"strat"}
       [] ep = "proposalbest" -> {"strat", "n", "clen"}
-      [] ep = "aggregator" -> {"account"}
+      [] ep = "aggregator" -> {"account", "style"}
       [] ep = "submitclassify" -> {"server"}
+      [] ep \in {"attester", "syncmessenger", "syncaggregator", "cacheevents"} -> {"style"}   \* the strategy (and its nodes) wired by main.go
       [] OTHER -> {}
 
 Absent(x) == x \in {"absent", "na"}       \* no optional interface behind this provider (or no such provider)
@@ -97,11 +100,14 @@ SameInstance(ep, s, t) ==
                               /\ Absent(s.nodeclient1) = Absent(t.nodeclient1)
 
 (* The PROBE input of the configuration of shape s: the well-formed member of the lattice.               *)
+Node1Probe(s) == IF s.style = "direct" THEN "none" ELSE "valid"
 ProbeOf(ep, s) ==
-    CASE ep = "execservice" -> [doc |-> "valid2", source |-> s.source, prior |-> "none", addr |-> "good", pk |-> "none"]
+    CASE ep = "execservice" -> [doc |-> "valid2", source |-> s.source, prior |-> "none", addr |-> "good", pk |-> "none",
+                                strat |-> s.strat, bid |-> "valid", bid2 |-> "same", bid3 |-> "same"]
       [] ep = "graffiti" -> [file |-> "one", fallback |-> IF s.nodeclient = "absent" THEN "none" ELSE s.fallback, loc |-> s.loc, use |-> s.use,
                              nodeclient |-> IF Absent(s.nodeclient) THEN s.nodeclient ELSE "ok"]
-      [] ep = "builderbid" -> [strat |-> s.strat, addr |-> "good", bid |-> "valid", second |-> "none", pkcfg |-> "none"]
+      [] ep = "builderbid" -> [strat |-> s.strat, addr |-> "good", bid |-> "valid", bid2 |-> "same", bid3 |-> "same",
+                               second |-> "none", pkcfg |-> "none"]
       [] ep = "proposalbest" -> [strat |-> s.strat, graffiti |-> IF s.clen = "10" THEN "plain" ELSE "client", clen |-> s.clen,
                                  nodeclient |-> IF Absent(s.nodeclient) THEN s.nodeclient ELSE "ok",
                                  nodeclient1 |-> IF Absent(s.nodeclient1) THEN s.nodeclient1 ELSE "ok",
@@ -109,12 +115,12 @@ ProbeOf(ep, s) ==
       [] ep = "proposer" -> [auction |-> IF s.auction = "none" THEN "none" ELSE "won", ver |-> "deneb", blinded |-> "n",
                              body |-> "valid", unblind |-> "ok", graffiti |-> IF s.graffiti = "none" THEN "none" ELSE "short",
                              nodeclient |-> IF Absent(s.nodeclient) THEN s.nodeclient ELSE "ok"]
-      [] ep = "attester" -> [body |-> "valid", slot |-> "64", duty |-> "one"]
-      [] ep = "aggregator" -> [body |-> "valid", slot |-> "64", account |-> s.account]
-      [] ep = "syncmessenger" -> [body |-> "valid", accounts |-> "all", slot |-> "64"]
-      [] ep = "syncaggregator" -> [body |-> "valid", root |-> "known", slot |-> "64"]
+      [] ep = "attester" -> [body |-> "valid", slot |-> "64", duty |-> "one", style |-> s.style, node1 |-> Node1Probe(s)]
+      [] ep = "aggregator" -> [body |-> "valid", slot |-> "64", account |-> s.account, style |-> s.style, node1 |-> Node1Probe(s)]
+      [] ep = "syncmessenger" -> [body |-> "valid", accounts |-> "all", slot |-> "64", style |-> s.style, node1 |-> Node1Probe(s)]
+      [] ep = "syncaggregator" -> [body |-> "valid", root |-> "known", slot |-> "64", style |-> s.style, node1 |-> Node1Probe(s)]
       [] ep = "mergeduties" -> [n |-> "3", dup |-> "none", range |-> "ok", zero |-> "none", entry |-> "ok"]
-      [] ep = "cacheevents" -> [event |-> "head", ver |-> "deneb", body |-> "valid"]
+      [] ep = "cacheevents" -> [event |-> "head", ver |-> "deneb", body |-> "valid", style |-> s.style, node1 |-> Node1Probe(s)]
       [] ep = "submitclassify" -> [op |-> "messages", server |-> s.server, err |-> "known"]
 
 (* Inputs whose outcome must not depend on the history: the probe input of the instance.                  *)
@@ -185,7 +191,9 @@ Probe(o) ==
 AuxKinds == {"none", "values", "faults"}
 AuxKind(ep, s) == IF AuxRequests(ep, s) = {} THEN "none"
                   ELSE IF \E a \in AuxRequests(ep, s) : a.answer \in AuxFaults THEN "faults" ELSE "values"
-KindOf(ep, of, s) == [stable |-> Stable(ep, of, s), uses |-> Uses(ep, s), gated |-> Gated(ep, s), aux |-> AuxKind(ep, s)]
+\* ... and whether its relays may be POLLED repeatedly on behalf of the call (the sequence of answers is part of the input)
+KindOf(ep, of, s) == [stable |-> Stable(ep, of, s), uses |-> Uses(ep, s), gated |-> Gated(ep, s), aux |-> AuxKind(ep, s),
+                      polled |-> Polled(ep)]
 
 (* the kinds of input every configuration of every entry point can be fed (evaluated once)                 *)
 Kinds == [ep \in LongLived |->
@@ -208,7 +216,7 @@ CallKind(k) ==
            shared == IF "faults" \in envs THEN "faults" ELSE IF "values" \in envs THEN "values" ELSE "none"
        IN  inflight' = [c \in InFlight \cup {ncalls + 1} |->
                         IF c = ncalls + 1 THEN [stable |-> k.stable, uses |-> k.uses, gated |-> k.gated, aux |-> shared,
-                                                done |-> {}, faulted |-> FALSE]
+                                                polled |-> k.polled, done |-> {}, faulted |-> FALSE]
                                           ELSE [inflight[c] EXCEPT !.stable = FALSE, !.aux = shared]]     \* see above
     /\ UNCHANGED <<inst, ended, fresh, alive>>
 
@@ -225,6 +233,16 @@ Aux(c, cl) ==
     /\ inflight[c].aux # "none" /\ (cl = "fault" => inflight[c].aux = "faults")
     /\ inflight' = [inflight EXCEPT ![c].faulted = @ \/ (cl = "fault")]
     /\ UNCHANGED <<inst, ncalls, ended, fresh, alive>>
+
+(* A relay answered a poll made on behalf of call c (the n-th of that call: the answer is the one the input of  *)
+(* c chose for it, Trace_RobustnessInst checks that).  Whatever the sequence of answers, call c goes on to one    *)
+(* of its allowed ends; a poll may also be answered while another call is in flight.  (The per-input           *)
+(* bookkeeping of the answers given is in Robustness.tla: PollSequencesSurvived; here a poll changes nothing.)    *)
+MaxPoll == 3        \* the third and every later poll is answered alike (RobustnessShapes!BidAtOf)
+Poll(c) ==
+    /\ c \in InFlight
+    /\ inflight[c].polled
+    /\ UNCHANGED ivars
 
 Use(c, u, o) ==
     /\ c \in InFlight
@@ -260,7 +278,8 @@ DecoderPanic(c) ==
     /\ UNCHANGED <<inst, ncalls, fresh, alive>>
 
 DecoderPanicFatal ==
-    /\ InFlight # {}
+    /\ ncalls > 0         \* a goroutine a call started; the call itself may have come back already (a strategy returns
+                          \* with the first node's answer and leaves the requests to the other nodes behind)
     /\ ended' = ended \cup {[stable |-> FALSE, outcome |-> "undeliverable"]}
     /\ inflight' = << >> /\ ncalls' = MaxCalls
     /\ UNCHANGED <<inst, fresh, alive>>
@@ -272,6 +291,7 @@ Next ==
     \/ \E o \in Outcomes : Probe(o)
     \/ \E k \in (IF inst = NoInst THEN {} ELSE Kinds[inst.ep][inst.of]) : CallKind(k)   \* = \E s : Call(s)
     \/ \E c \in InFlight : \E cl \in AuxClasses : Aux(c, cl)
+    \/ \E c \in InFlight : Poll(c)
     \/ \E c \in InFlight : \E u \in UseNames : \E o \in Outcomes : Use(c, u, o)
     \/ \E c \in InFlight : \E o \in Outcomes : Return(c, o)
     \/ \E c \in InFlight : Undeliverable(c)
@@ -293,6 +313,7 @@ TypeOK ==
     /\ \A c \in InFlight : /\ inflight[c].stable \in BOOLEAN /\ inflight[c].gated \in BOOLEAN
                            /\ inflight[c].done \subseteq inflight[c].uses /\ inflight[c].uses \subseteq UseNames
                            /\ inflight[c].aux \in AuxKinds /\ inflight[c].faulted \in BOOLEAN
+                           /\ inflight[c].polled \in BOOLEAN
     /\ ended \subseteq [stable : BOOLEAN, outcome : Ends]
     /\ fresh \in Outcomes \cup {"none"}
     /\ inst = NoInst => ncalls = 0 /\ fresh = "none"
